@@ -59,11 +59,11 @@ int main(int argc, char** argv) {
 	long long walks = 0, caseNo = 0; std::vector<const Tr*> pre;
 	std::function<void(int, bool)> dfs = [&](int st, bool dead) { if ((int)pre.size() == depth) return;
 		for (const Tr& t : REL[st]) { pre.push_back(&t); long long k = caseNo++; bool deadHere = dead || SKIP_SITES.count(site_of(t)) > 0; bool good = true;
-			if (!deadHere && Proto::begin_case_fast(k)) { if ((k & 255) == 0) alarm((unsigned)Proto::g_watchdog_s); CURLEN = (int)pre.size(); for (int i = 0; i < CURLEN; ++i) CUR[i] = pre[i]; fresh(); for (int i = 0; i < CURLEN && good; ++i) good = apply(*pre[i], i); ++walks; }
+			if (!deadHere && Proto::begin_case_fast(k)) { if ((k & 255) == 0) Proto::watchdog((unsigned)Proto::g_watchdog_s); CURLEN = (int)pre.size(); for (int i = 0; i < CURLEN; ++i) CUR[i] = pre[i]; fresh(); for (int i = 0; i < CURLEN && good; ++i) good = apply(*pre[i], i); ++walks; }
 			dfs(t.toId, deadHere || !good); pre.pop_back(); } };
 	dfs(initId, false);
 	std::mt19937_64 rng(Proto::g_seed * 104729 + 11);
 	for (long wk = 0; wk < randomWalks; ++wk) { long long k = caseNo++; std::vector<const Tr*> path; int st = initId; std::mt19937_64 wr(rng()); for (int i = 0; i < randomLen; ++i) { auto& out = REL[st]; if (out.empty()) break; const Tr* t = &out[wr() % out.size()]; if (SKIP_SITES.count(site_of(*t))) continue; path.push_back(t); st = t->toId; }
-		if (!Proto::begin_case_fast(k)) continue; alarm((unsigned)Proto::g_watchdog_s); CURLEN = (int)std::min<std::size_t>(path.size(), 64); for (int i = 0; i < CURLEN; ++i) CUR[i] = path[i]; fresh(); bool good = true; for (int i = 0; i < CURLEN && good; ++i) good = apply(*path[i], i); ++walks; }
+		if (!Proto::begin_case_fast(k)) continue; Proto::watchdog((unsigned)Proto::g_watchdog_s); CURLEN = (int)std::min<std::size_t>(path.size(), 64); for (int i = 0; i < CURLEN; ++i) CUR[i] = path[i]; fresh(); bool good = true; for (int i = 0; i < CURLEN && good; ++i) good = apply(*path[i], i); ++walks; }
 	std::size_t ntr = 0; for (auto& v : REL) ntr += v.size();
 	Proto::summary({{"states", REL.size()}, {"transitions", ntr}, {"walks", walks}, {"cases", caseNo}, {"steps", STEPS}, {"depth", depth}}); return 0; }
